@@ -16,7 +16,7 @@ import (
 // unmodified, once, in the publisher's order.
 
 func c06Stream(w *W) {
-	tran := []string{"sim", "simipc"}[w.Choose(simrt.SShape, 2)]
+	tran := []string{"sim", "simipc", "tcp", "ipc", "tls+tcp"}[w.Choose(simrt.SShape, 5)]
 	kind := []string{"pub", "xpub"}[w.Choose(simrt.SShape, 2)]
 	nsub := 2 + w.Choose(simrt.SShape, 3)
 	nmsg := 4 + w.Choose(simrt.SShape, 26)
@@ -28,7 +28,7 @@ func c06Stream(w *W) {
 	pub := w.Sock(kind)
 	defer pub.Close()
 	addr := w.Addr(tran)
-	if err := pub.Listen(addr); err != nil {
+	if err := w.ListenOn(pub, addr); err != nil {
 		w.Failf("HARNESS/listen", "%v", err)
 		return
 	}
@@ -50,7 +50,7 @@ func c06Stream(w *W) {
 		mustSet(w, s, mangos.OptionSubscribe, sr.topic)
 		mustSet(w, s, mangos.OptionRecvDeadline, 2*time.Millisecond)
 		mustSet(w, s, mangos.OptionReconnectTime, time.Hour) // the victim stays away
-		if err := s.Dial(addr); err != nil {
+		if err := w.DialOn(s, addr); err != nil {
 			w.Failf("HARNESS/dial", "%v", err)
 			return
 		}
